@@ -497,21 +497,27 @@ XPathEvaluator::evaluate(
 
     m_executionContext->setDOMSupport(&domSupport);
 
+    // Break the connections we set when we leave, also when the
+    // evaluation throws: the support objects belong to the caller.
+    struct Disconnect
+    {
+        XPathExecutionContextDefault*   m_context;
+
+        ~Disconnect()
+        {
+            m_context->setXPathEnvSupport(0);
+
+            m_context->setXObjectFactory(0);
+
+            m_context->setDOMSupport(0);
+        }
+    } const theGuard = { m_executionContext.get() };
+
     // OK, evaluate the expression...
-    const XObjectPtr    theResult(
-        xpath.execute(
+    return xpath.execute(
             contextNode,
             prefixResolver,
-            *m_executionContext.get()));
-
-    // Break the connectons we set...
-    m_executionContext->setXPathEnvSupport(0);
-
-    m_executionContext->setXObjectFactory(0);
-
-    m_executionContext->setDOMSupport(0);
-
-    return theResult;
+            *m_executionContext.get());
 }
 
 
